@@ -39,6 +39,8 @@ def atom_type(name):
   if ('min' in n or 'max' in n or 'bound' in n) and not n.startswith(
       'clamp') and not n.endswith('constraints'):
     return 'bound'
+  if n.endswith('_value'):
+    return 'bound'
   if n.startswith('clamp_') or n.startswith('use_') or n.startswith(
       'is_') or n.startswith('enforce_') or n in (
           'clip_inputs', 'monotonic_at_every_step', 'impute_missing'):
@@ -152,9 +154,13 @@ class Logic(object):
         t = truthy(self.val(e.args[0]))
         return UNK if t is None else Val('bool', t)
       return UNK
-    if isinstance(e, (ast.BoolOp, ast.UnaryOp, ast.Compare)):
+    if isinstance(e, ast.BoolOp) or (
+        isinstance(e, ast.UnaryOp) and isinstance(e.op, ast.Not)) or (
+            isinstance(e, ast.Compare) and len(e.ops) == 1):
       t = self.truth(e)
       return UNK if t is None else Val('bool', t)
+    if isinstance(e, (ast.UnaryOp, ast.Compare)):
+      return UNK
     if isinstance(e, ast.IfExp):
       c = self.truth(e.test)
       if c is None:
@@ -243,6 +249,7 @@ class Activation(object):
     self.prog = prog
     self.skip = set(skip_params)
     self.unknown = None
+    self.may = []
 
   def is_active(self, fn, env, attr_defs=None, depth=0):
     if depth > 6:
@@ -315,12 +322,14 @@ class Activation(object):
           if not branch:
             continue
           if tv is None:
+            # undecided configuration test: the branch may run.  For the
+            # obligation "acts => guarded" may-act is treated as acts
+            # (conservative for the property).
             sub = self._block(fn, branch, lg, names, depth)
             if sub:
-              self.unknown = '%s: %s' % (fn.qualname,
-                                         norm_text(st.test)[:60])
-              if result is False:
-                result = None
+              self.may.append('%s: %s' % (fn.qualname,
+                                          norm_text(st.test)[:60]))
+              result = True
           elif tv == want:
             sub = self._block(fn, branch, lg, names, depth)
             if sub is True:
@@ -423,7 +432,8 @@ def class_env(prog, cls, arg_vals):
 
 
 def check_guard(prog, res, fn, call, callee, rule='W3', key=None,
-                covered_elsewhere=None, implications=None, callee_env=None):
+                covered_elsewhere=None, implications=None, callee_env=None,
+                switches=(), precondition=None, state_filter=None):
   """For the guarded call / construction at `call` inside method fn: in every
   abstract configuration state in which the callee would change the weights,
   the structural guard of the call holds.
@@ -460,18 +470,39 @@ def check_guard(prog, res, fn, call, callee, rule='W3', key=None,
     collect(t)
   for p, v in bound.items():
     collect(v)
+  for t, pol in (precondition or []):
+    collect(t)
+  for sw in switches:
+    atoms.add(sw)
   atoms = sorted(a for a in atoms if atom_type(a) != 'opaque')
   k = key or '%s->%s' % (fn.qualname, callee.qualname)
   spaces = [TYPE_STATES[atom_type(a)] for a in atoms]
   n_states = 0
   bad = None
   unknown = None
+  state_filter = state_filter or {}
   for combo in itertools.product(*spaces):
     env = {a: Val(atom_type(a), s) for a, s in zip(atoms, combo)}
     if implications and not _respects(env, implications):
       continue
-    n_states += 1
+    if any(a in state_filter and s not in state_filter[a]
+           for a, s in zip(atoms, combo)):
+      continue
+    # opt-in switches (e.g. enforce_strict_monotonicity): only states in
+    # which the user asked for the effect are obligations
+    if any(env.get(sw) is not None and truthy(env[sw]) is False
+           for sw in switches):
+      continue
     lg = Logic(prog, fn, env, attr_defs)
+    # the variable / call site itself does not exist in this state
+    pre = True
+    for t, pol in (precondition or []):
+      tv = lg.truth(t)
+      if tv is not None and tv != pol:
+        pre = False
+    if not pre:
+      continue
+    n_states += 1
     g = True
     for t, pol in guards:
       tv = lg.truth(t)
@@ -535,7 +566,7 @@ def _respects(env, implications):
   return True
 
 
-def trace(prog, fn, env, attr_defs=None):
+def trace(prog, fn, env, attr_defs=None, both_on_unknown=False):
   """Statements fn executes under the abstract configuration env, following
   top-level and nested if-chains whose tests the configuration decides.
   Returns the list of executed simple statements; raises AnalysisError when
@@ -549,9 +580,15 @@ def trace(prog, fn, env, attr_defs=None):
         reads = names_read(st.test)
         tv = lg.truth(st.test)
         if tv is None:
-          raise AnalysisError('%s: test `%s` is not decided by the '
-                              'configuration' % (fn.loc(st),
-                                                 norm_text(st.test)[:60]))
+          if not both_on_unknown:
+            raise AnalysisError('%s: test `%s` is not decided by the '
+                                'configuration' % (fn.loc(st),
+                                                   norm_text(st.test)[:60]))
+          a = block(st.body)
+          b = block(st.orelse)
+          if a and b:
+            return True
+          continue
         if block(st.body if tv else st.orelse):
           return True
         continue
